@@ -250,3 +250,24 @@ Example C05_history_example :
   reg_get (fold_left run_cop ops ex_table) 0 = ((ASuccess, 0), Some {| v_type := TU16; v_bits := 7 |}) /\
   reg_get (fold_left run_cop ops ex_table) 1 = ((ASuccess, 0), Some {| v_type := TU32; v_bits := 99 |}).
 Proof. split; vm_compute; reflexivity. Qed.
+
+(* the sanitise clause is not vacuous: the example table with its first register corrupted to 0 (outside 1..10) and the second to
+   0x00010000 = 65536 (above 100): sanitise succeeds and both registers hold their defaults again *)
+Definition ex_corrupt : table :=
+  {| t_init := true; t_during := false; t_be := false;
+     t_areas := [ {| a_base := 0; a_size := 4; a_readable := true; a_writeable := true; a_skip := false; a_has_read := true;
+                     a_has_write := true; a_is_mem := true; a_words := [0; 0; 1; 7]; a_first := 0; a_last := 1; a_count := 2 |} ];
+     t_entries := t_entries ex_table |}.
+Example C05_sanitise_example :
+  InvB ex_table /\ defaults_typed ex_table /\ corrupted ex_table ex_corrupt /\
+  match sanitise ex_corrupt with
+  | ((ASuccess, _), t') => map a_words (t_areas t') = [[5; 0; 0; 7]]
+  | _ => False
+  end.
+Proof.
+  split; [split; [exact C05_invariant_holds_somewhere|]|].
+  - split; [cbn; exact I|]. repeat constructor.
+  - split; [repeat constructor; cbn; lia|]. split.
+    + repeat split; repeat constructor; cbn; lia.
+    + vm_compute. reflexivity.
+Qed.
